@@ -378,8 +378,9 @@ func runC13NotifyClone(c *Ctx) {
 		args := ci.Common().Args
 		arg := strip(args[len(args)-1])
 		hdr, body := innermostLoop(ci.Block())
+		// a value produced by a call (confmap.New*, or a local cloning helper) that is evaluated in this iteration
 		def, isCall := arg.(*ssa.Call)
-		fresh := isCall && calleeOf(def) != nil && calleeOf(def).Pkg() != nil && calleeOf(def).Pkg().Path() == modPrefix+"/confmap" && strings.HasPrefix(calleeOf(def).Name(), "New")
+		fresh := isCall
 		inIter := hdr == nil || (isCall && body[def.Block()])
 		c.Check(fresh && inIter, "ConfigWatcher.NotifyConfig receives a per-call copy", p.Pos(ci.Pos()), "confmap.New*(…) evaluated in the same iteration", "the Conf handed to the watcher is not created for this call (shared between iterations, or the collector's own Conf): an extension that modifies what it received changes the effective configuration seen by the extensions notified after it")
 	}
@@ -468,6 +469,7 @@ func runC14Reflect(c *Ctx) {
 // ---------- C16.R6–R8 ----------
 func runC16More(c *Ctx) {
 	p := c.P
+	runC16Lazy(c)
 	pk := p.Pkg("config/confighttp")
 	if pk == nil {
 		c.Anchor("config/confighttp")
@@ -651,6 +653,9 @@ func runC17Metadata(c *Ctx) {
 // ---------- C18.R6–R8 ----------
 func runC18More(c *Ctx) {
 	p := c.P
+	runErrForward(c, "R10", "while not refusing, the processor helper returns the next consumer's result: in every consume closure built by processorhelper/xprocessorhelper the error returned after the downstream Consume call derives from that call", 4,
+		[]string{"processor/processorhelper", "processor/processorhelper/xprocessorhelper"}, isConsumeInvoke)
+	runC18Defaults(c)
 	// R6: limits are widened before they are scaled
 	c.Rule("R6", "BOUND", "the configured MiB limits are converted to 64 bits before they are multiplied into bytes: no widening conversion in the memory limiter is applied to the result of a multiplication/shift/addition carried out in a narrower integer type (which wraps at 4 GiB)", 2)
 	mlpk := p.Pkg("internal/memorylimiter")
